@@ -36,7 +36,8 @@ SIG_FROM_GRAPH = "from_graph:missing-output-block"
 SIG_DANGLING = "mixed-compute:dangling-leaf-key"
 SIG_OPT_RAW = "optimize:raw-unlowered-graph"
 SIG_RESHAPE = "reshape-int-slice-pushdown"
-OWN_KNOWN = (SIG_OPT_REDUCTION, SIG_FROM_GRAPH, SIG_DANGLING, SIG_OPT_RAW, SIG_RESHAPE)
+SIG_SIZE_DRIFT = "dask.persist:block-size-drift"
+OWN_KNOWN = (SIG_OPT_REDUCTION, SIG_FROM_GRAPH, SIG_DANGLING, SIG_OPT_RAW, SIG_RESHAPE, SIG_SIZE_DRIFT)
 
 
 def classify_reshape(prog, msg):
@@ -194,6 +195,12 @@ def _hand_registry():
         a = np.arange(4, dtype=np.int64)
         return da.from_array(a, chunks=2).reshape(4, 1)[1], a.reshape(4, 1)[1]
 
+    @reg("swv_mean_irregular")
+    def _(p):
+        a = np.arange(17, dtype=np.int64)
+        d = da.from_array(a, chunks=((9, 3, 5),))
+        return da.sliding_window_view(d, 4).mean(-1), np.lib.stride_tricks.sliding_window_view(a, 4).mean(-1)
+
     @reg("persist_of_persist")
     def _(p):
         a, d = src(12, 5)
@@ -213,7 +220,7 @@ HAND_NAMES = (
     "full_sum_0d", "full_max_2d_0d", "sum_keepdims", "int_index_0d", "src_0d", "elemwise_0d_mix", "axis_sum_split2",
     "mean_float", "boolmask_unknown", "boolmask_sized", "random_generator", "random_state_slice", "from_delayed",
     "from_delayed_concat", "from_map", "ones_arange", "swv_sum", "rechunk_T", "cumsum_tail", "stack_shared",
-    "persist_of_persist", "optimized_input", "take_single", "mul_mismatched_chunks",
+    "persist_of_persist", "optimized_input", "take_single", "mul_mismatched_chunks", "swv_mean_irregular",
 )
 
 
@@ -339,9 +346,22 @@ def optimized_grid_differs(x):
         return False
 
 
+def optimized_sizes_differ(x):
+    """dask's own optimization of the RAW expression keeps the NUMBER of blocks per axis but moves the chunk
+    boundaries (e.g. the native sliding-window layout (9,3,2) under advertised chunks (8,4,2)): `dask.persist` then
+    locates the blocks by block id and wraps them under the advertised chunk SIZES, which they do not have."""
+    try:
+        low = x.expr.optimize(fuse=False)
+        return tuple(low.numblocks) == tuple(x.numblocks) and not chunks_equal(tuple(low.chunks), tuple(x.chunks))
+    except Exception:
+        return False
+
+
 def classify_value(case, x, y, entry):
     """Signature of a documented finding for a WRONG VALUE / wrong metadata produced by `entry`."""
     try:
+        if entry in ("dask.persist(x)", "dask.persist(x,y)") and any(optimized_sizes_differ(c) for c in _colls(x, y, entry)):
+            return SIG_SIZE_DRIFT
         if entry == "dask.compute(x,delayed)" and x is not None and dangling_leaves(x):
             # dask's mixed HLG/expression path takes the LEAVES of the materialized graph as the
             # collection's output keys; an unreferenced key (Shuffle's unused shuffle-sorter-<token>)
@@ -369,6 +389,8 @@ def classify(case, x, y, entry, exc):
             return SIG_OPT_RAW
         if entry == "dask.compute(x,delayed)" and dangling_leaves(x):
             return SIG_DANGLING
+        if entry in ("dask.persist(x)", "dask.persist(x,y)") and any(optimized_sizes_differ(c) for c in cs):
+            return SIG_SIZE_DRIFT
     except Exception:
         pass
     if case.get("prog"):
@@ -627,6 +649,212 @@ def check_case(ctx, case, count=True, entries=None):
                             fails.append({"sig": sig, "entry": entry,
                                           "detail": f"{follow} on the result of {entry} raised {type(e).__name__}: {str(e)[:200]} (fine on x)"})
                         # if the same op on x itself fails, that is not a C05 matter (C01)
+        if case.get("blocks") and not any(f["entry"] == "x.compute" for f in fails):
+            fails += block_checks(ctx, case, x, ref, sched, count)
+    return fails
+
+
+# --------------------------------------------------------------------- per-block checks
+
+def _blocks_of(coll, sched):
+    """{block index: computed block} of `coll.to_delayed()` and its grid shape"""
+    import dask
+
+    dl = coll.to_delayed()
+    if dl.ndim:
+        idxs = list(np.ndindex(*dl.shape))
+        flat = [dl[i] for i in idxs]
+    else:
+        idxs, flat = [()], [dl.tolist()]
+    vals = dask.compute(*flat, scheduler=sched)
+    return dict(zip(idxs, vals)), tuple(dl.shape), dict(zip(idxs, flat))
+
+
+def block_checks(ctx, case, x, want, sched, count=True):
+    """Blocks handed out by to_delayed / a persisted collection / x.optimize() have the sizes of the chunks the
+    collection ADVERTISES (x.chunks for to_delayed and persist — persist must keep them —, its own chunks for
+    x.optimize()); re-assembling `x.to_delayed()` with `da.from_delayed` per `x.chunks` gives x's values."""
+    import dask_array as da
+
+    fails = []
+    if any(isinstance(c, float) and math.isnan(c) for dim in x.chunks for c in dim):
+        return fails
+
+    def shapes(label, coll, chunks):
+        try:
+            blocks, grid, dls = _blocks_of(coll, sched)
+        except NotImplementedError:
+            return None
+        except Exception as e:
+            fails.append({"sig": classify(case, x, None, label, e) or f"{label}:blocks:raises:{type(e).__name__}", "entry": label,
+                          "detail": f"computing the blocks of {label} raised {type(e).__name__}: {str(e)[:200]}"})
+            return None
+        if count:
+            ctx.count((label, "blocks", len(blocks) > 1))
+        if grid != tuple(len(c) for c in chunks):
+            fails.append({"sig": f"{label}:block-grid", "entry": label, "detail": f"{label}: block grid {grid} but chunks {chunks}"})
+            return None
+        for idx, v in blocks.items():
+            exp = tuple(int(chunks[d][i]) for d, i in enumerate(idx))
+            if np.asarray(v).shape != exp:
+                fails.append({"sig": f"{label}:block-shape", "entry": label,
+                              "detail": f"{label}: block {idx} has shape {np.asarray(v).shape}, the advertised chunks {chunks} say {exp}"})
+                break
+        return dls
+
+    dls = shapes("to_delayed", x, x.chunks)
+    try:
+        p = x.persist(scheduler=sched)
+        if not chunks_equal(p.chunks, x.chunks):
+            fails.append({"sig": "x.persist:meta:chunks", "entry": "x.persist", "detail": f"x.persist(): chunks {p.chunks} != {x.chunks}"})
+        else:
+            shapes("x.persist", p, x.chunks)
+    except NotImplementedError:
+        pass
+    except Exception as e:
+        fails.append({"sig": classify(case, x, None, "x.persist", e) or f"x.persist:raises:{type(e).__name__}", "entry": "x.persist", "detail": repr(e)[:200]})
+    try:
+        import dask
+
+        (p2,) = dask.persist(x, scheduler=sched)
+        n0 = len(fails)
+        shapes("dask.persist(x)", p2, x.chunks)
+        for f in fails[n0:]:
+            f["sig"] = classify_value(case, x, None, "dask.persist(x)") or f["sig"]
+    except NotImplementedError:
+        pass
+    except Exception as e:
+        fails.append({"sig": classify(case, x, None, "dask.persist(x)", e) or f"dask.persist(x):raises:{type(e).__name__}", "entry": "dask.persist(x)", "detail": repr(e)[:200]})
+    try:
+        o = x.optimize()
+        shapes("x.optimize", o, o.chunks)
+    except NotImplementedError:
+        pass
+    except Exception as e:
+        fails.append({"sig": classify(case, x, None, "x.optimize", e) or f"x.optimize:raises:{type(e).__name__}", "entry": "x.optimize", "detail": repr(e)[:200]})
+    if dls and x.ndim >= 1 and want is not None and not any(f["entry"] == "to_delayed" for f in fails):
+        try:
+            def nest(prefix, axis):
+                if axis == x.ndim:
+                    exp = tuple(int(x.chunks[d][i]) for d, i in enumerate(prefix))
+                    return da.from_delayed(dls[prefix], shape=exp, dtype=x.dtype)
+                return [nest(prefix + (i,), axis + 1) for i in range(len(x.chunks[axis]))]
+
+            got = da.block(nest((), 0)).compute(scheduler=sched)
+            if not same(got, want):
+                fails.append({"sig": "to_delayed:from_delayed-reassembly", "entry": "to_delayed",
+                              "detail": f"da.block of from_delayed(x.to_delayed(), per x.chunks={x.chunks}) -> {show(got)} expected {show(want)}"})
+        except NotImplementedError:
+            pass
+        except Exception as e:
+            fails.append({"sig": f"to_delayed:from_delayed-reassembly:raises:{type(e).__name__}", "entry": "to_delayed",
+                          "detail": f"re-assembling x.to_delayed() per x.chunks raised {type(e).__name__}: {str(e)[:200]}"})
+    return fails
+
+
+def gen_swv_program(rng):
+    """a sliding-window reduction (sum / max / min / mean) over an IRREGULARLY chunked source (optionally behind
+    elemwise steps), as root or under elemwise steps only (no layout-capturing consumer: that is the documented
+    swv-layout-drift class)"""
+    from harness import gen
+
+    nd = rng.choice([1, 1, 2])
+    shape = [rng.randint(6, 20)] + ([rng.randint(2, 5)] if nd == 2 else [])
+    ax = 0 if nd == 1 else rng.choice([0, 0, 1])
+    for _ in range(20):
+        cks = [list(gen.rand_chunks(rng, n)) for n in shape]
+        if len(set(cks[ax])) > 1:
+            break
+    prog = [{"op": "src", "shape": shape, "chunks": cks, "mul": rng.choice([1, 3, 7]), "off": rng.randint(-5, 5), "mod": rng.choice([1 << 40, 11]), "out": "v1"}]
+    cur, k = "v1", 1
+    if rng.random() < 0.4:
+        k += 1
+        prog.append({"op": rng.choice(["affine", "neg", "sq"]), "args": [cur], "out": f"v{k}"})
+        cur = f"v{k}"
+    k += 1
+    prog.append({"op": "swv_reduce", "args": [cur], "window": rng.randint(2, min(6, shape[ax])), "axis": ax,
+                 "fn": rng.choice(["sum", "max", "min", "mean", "mean"]), "out": f"v{k}"})
+    cur = f"v{k}"
+    if rng.random() < 0.4:
+        k += 1
+        prog.append({"op": rng.choice(["affine", "neg"]), "args": [cur], "out": f"v{k}"})
+    return prog
+
+
+# ------------------------------------------------------- in-place updates between entry points
+
+INPLACE_ENTRIES = ("x.compute", "x.optimize", "x.persist", "to_delayed", "dask.compute(x)", "dask.persist(x)")
+
+
+def gen_update(rng, want):
+    shp = want.shape
+    r = rng.random()
+    if r < 0.45:
+        idx = programs.rand_basic_index(rng, shp, allow_none=False, allow_ellipsis=False, allow_neg_step=False)
+        return {"type": "setitem", "index": programs._enc_index(idx), "value": rng.randint(-9, 9)}
+    if r < 0.75:
+        return {"type": "mask", "mod": rng.randint(2, 4), "value": rng.randint(-9, 9)}
+    return {"type": "ufunc_out", "k": rng.randint(1, 5)}
+
+
+def apply_update(upd, x, da_mode):
+    """in place on the SAME object"""
+    if upd["type"] == "setitem":
+        x[programs._dec_index(upd["index"])] = upd["value"]
+    elif upd["type"] == "mask":
+        x[x % upd["mod"] == 0] = upd["value"]
+    else:
+        if da_mode:
+            import dask_array as da
+
+            da.add(x, upd["k"], out=x)
+        else:
+            np.add(x, upd["k"], out=x)
+
+
+def check_inplace(ctx, case, count=True):
+    """history on ONE collection object: entry points, an in-place update, the entry points again."""
+    fails = []
+    with warnings.catch_warnings():
+        warnings.simplefilter("ignore")
+        prog = case["prog"]
+        try:
+            env = programs.run_da(prog)
+        except Exception:
+            return None
+        root = prog[-1]["out"]
+        x = env[root]
+        want = np.array(programs.run_np(prog)[root], copy=True)
+        sched = case.get("sched", "sync")
+
+        def call(entry, stage, w):
+            try:
+                got, _, _ = run_entry(entry, x, None, sched)
+            except NotImplementedError:
+                return
+            except Exception as e:
+                fails.append({"sig": classify(case, x, None, entry, e) or f"inplace:{stage}:{entry}:raises:{type(e).__name__}", "entry": entry,
+                              "detail": f"{stage} the in-place update {case['update']}: {entry} raised {type(e).__name__}: {str(e)[:200]}"})
+                return
+            if count:
+                ctx.count(("inplace", stage, entry, case["update"]["type"]))
+            if not same(got, w):
+                fails.append({"sig": f"inplace:{stage}:{entry}:value-mismatch", "entry": entry,
+                              "detail": f"{stage} the in-place update {case['update']} (entry points called before: {case['pre']}): {entry} -> {show(got)} expected {show(w)}"})
+
+        for entry in case["pre"]:
+            call(entry, "before", want)
+        if fails:
+            return fails
+        try:
+            apply_update(case["update"], x, True)
+        except (NotImplementedError, ValueError, TypeError, IndexError):
+            return None  # the update itself is refused: nothing to compare
+        apply_update(case["update"], want, False)
+        if x is not env[root]:
+            return None
+        for entry in case.get("post") or INPLACE_ENTRIES:
+            call(entry, "after", want)
     return fails
 
 
@@ -657,6 +885,36 @@ def report(ctx, case, fails):
                     detail = next((g["detail"] for g in (r or []) if g["sig"] == sig), detail)
             except Exception:
                 pass
+        ctx.fail(sig, small, detail)
+
+
+def report_inplace(ctx, case, fails):
+    by_sig = {}
+    for f in fails:
+        by_sig.setdefault(f["sig"], f)
+    for sig, f in by_sig.items():
+        small = dict(case, post=[f["entry"]])
+        detail = f["detail"]
+        if sig not in OWN_KNOWN and not programs.classify_known(case["prog"], detail):
+            def still(c):
+                r = check_inplace(ctx, c, count=False)
+                return bool(r) and any(g["sig"] == sig for g in r)
+
+            try:
+                if still(small):
+                    for k in range(len(small["pre"]) - 1, -1, -1):
+                        c = dict(small, pre=small["pre"][:k] + small["pre"][k + 1:])
+                        if still(c):
+                            small = c
+                    small["prog"] = programs.shrink(small["prog"], lambda p: still(dict(small, prog=p)), max_iter=60)
+                    if not still(small):
+                        small = dict(case, post=[f["entry"]])
+                    r = check_inplace(ctx, small, count=False)
+                    detail = next((g["detail"] for g in (r or []) if g["sig"] == sig), detail)
+                else:
+                    small = case
+            except Exception:
+                small = case
         ctx.fail(sig, small, detail)
 
 
@@ -845,6 +1103,10 @@ def run(ctx, replay=None):
         "seeded random array programs (harness.programs, depth 2-6, outside the documented defect families) plus "
         f"{len(HAND_NAMES)} hand-shaped collections (0-d results, reductions, unknown chunks, seeded random arrays, from_delayed/"
         "from_map, persisted/optimized inputs) x 11 entry points x scheduler in {sync, threads} x one random follow-on op; "
+        "every 6th program is a sliding-window reduction (sum/max/min/mean) over an irregularly chunked source, with per-BLOCK "
+        "shape checks of to_delayed / persisted / optimized blocks against the advertised chunks and a from_delayed re-assembly; "
+        "every 6th case is a history on ONE collection object (entry points, in-place update by setitem / mask / ufunc out=, "
+        "entry points again); "
         "a case is distinct by (entry point, outcome, result rank, scheduler, set of expression classes)"
     )
     ctx.assumptions = [
@@ -858,7 +1120,8 @@ def run(ctx, replay=None):
     ]
     if replay is not None:
         case = replay["case"] if "case" in replay else replay
-        for f in check_case(ctx, case) or []:
+        fn = check_inplace if case.get("kind") == "inplace" else check_case
+        for f in fn(ctx, case) or []:
             ctx.fail(f["sig"], case, f["detail"])
         return
 
@@ -869,7 +1132,7 @@ def run(ctx, replay=None):
     # hand-shaped first
     for name in HAND_NAMES:
         for sched in ("sync", "threads"):
-            case = {"kind": "hand", "name": name, "params": {}, "sched": sched, "follow": None}
+            case = {"kind": "hand", "name": name, "params": {}, "sched": sched, "follow": None, "blocks": True}
             try:
                 with warnings.catch_warnings():
                     warnings.simplefilter("ignore")
@@ -888,8 +1151,25 @@ def run(ctx, replay=None):
         if time.time() - t_run > budget:
             ctx.notes["stopped_early_at"] = it
             break
+        if it % 6 == 5:
+            # history on ONE collection object: entry points, an in-place update, the entry points again
+            prog, npenv = programs.gen_clean_program(rng, rng.randint(1, 4))
+            w = npenv[prog[-1]["out"]]
+            if w.ndim == 0 or w.size == 0 or any(st["op"] in ("swv_reduce", "boolmask_1d") for st in prog):
+                continue
+            icase = {"kind": "inplace", "prog": prog, "sched": "sync", "update": gen_update(rng, w),
+                     "pre": rng.sample(list(INPLACE_ENTRIES), rng.randint(1, 3))}
+            fails = check_inplace(ctx, icase)
+            ctx.notes["inplace_histories"] = ctx.notes.get("inplace_histories", 0) + (fails is not None)
+            if fails:
+                report_inplace(ctx, icase, fails)
+            continue
         depth = rng.randint(2, 6)
-        prog, npenv = programs.gen_clean_program(rng, depth)
+        if it % 6 == 2:
+            prog = gen_swv_program(rng)
+            npenv = programs.run_np(prog)
+        else:
+            prog, npenv = programs.gen_clean_program(rng, depth)
         names = [st["out"] for st in prog]
         root = names[-1]
         yv = rng.choice(names)
@@ -897,6 +1177,7 @@ def run(ctx, replay=None):
             "kind": "prog", "prog": prog, "sched": "threads" if it % 4 == 3 else "sync",
             "y": {"var": yv, "op": rng.choice(["affine", "sum", "id"])},
             "follow": gen_follow(rng, npenv[root]),
+            "blocks": it % 6 == 2 or it % 3 == 0,
         }
         if it < 3:
             ctx.sample({"ops": [st["op"] for st in prog], "y": case["y"], "follow": case["follow"], "sched": case["sched"]})
@@ -926,8 +1207,9 @@ def known_probe(ctx):
                           ("swv_sum", ["x.compute", "dask.persist(x)", "dask.optimize(x)"]),
                           ("take_single", ["x.compute", "dask.compute(x,delayed)"]),
                           ("mul_mismatched_chunks", ["x.compute", "dask.optimize(x)"]),
-                          ("reshape_int_index", ["x.compute", "dask.optimize(x)"])):
-        case = {"kind": "hand", "name": name, "params": {}, "sched": "sync", "follow": None, "entries": entries}
+                          ("reshape_int_index", ["x.compute", "dask.optimize(x)"]),
+                          ("swv_mean_irregular", ["x.compute"])):
+        case = {"kind": "hand", "name": name, "params": {}, "sched": "sync", "follow": None, "entries": entries, "blocks": name == "swv_mean_irregular"}
         for f in check_case(ctx, case, count=False) or []:
             ctx.fail(f["sig"], case, f["detail"])
 
